@@ -133,6 +133,22 @@ mod strict {
         }
     }
 
+    /// Number of bytes the complete requests of `buf` occupy (where a pending, incomplete message starts).
+    pub fn consumed(buf: &[u8]) -> usize {
+        let mut pos = 0;
+        while pos < buf.len() { match read_one(buf, pos) { Ok(Some((_, next))) => pos = next, _ => break } }
+        pos
+    }
+
+    /// The method of the pending message at `pos`, if its head is complete (and well-formed as far as `read_one` got:
+    /// the caller only asks when the tail is `Partial("body")`).
+    pub fn pending_method(buf: &[u8], pos: usize) -> Option<String> {
+        let rest = &buf[pos..];
+        if !rest.windows(4).any(|w| w == b"\r\n\r\n") { return None; }
+        let sp = rest.iter().position(|&b| b == b' ')?;
+        Some(String::from_utf8_lossy(&rest[..sp]).to_string())
+    }
+
     fn partial_where(buf: &[u8], pos: usize) -> &'static str {
         // head complete?
         let rest = &buf[pos..];
@@ -150,6 +166,14 @@ mod strict {
         if m.is_empty() || !m.iter().all(|&b| is_tchar(b)) { return Err(format!("invalid method {:?}", String::from_utf8_lossy(m))); }
         if t.is_empty() || !t.iter().all(|&b| (0x21..=0x7e).contains(&b)) { return Err(format!("invalid request-target {:?}", String::from_utf8_lossy(t))); }
         if v != b"HTTP/1.1" && v != b"HTTP/1.0" { return Err(format!("invalid version {:?}", String::from_utf8_lossy(v))); }
+        // RFC 9112 3.2: origin-form / absolute-form for every method but CONNECT, authority-form (host:port) for CONNECT and
+        // only for CONNECT, asterisk-form only for OPTIONS. The method token is case-sensitive (RFC 9110 9.1).
+        let form = if t == b"*" { "asterisk" } else if t[0] == b'/' { "origin" }
+            else if t.windows(3).any(|w| w == b"://") { "absolute" }
+            else if !t.contains(&b'/') && t.rsplit(|&b| b == b':').next().is_some_and(|p| !p.is_empty() && p.len() < t.len() && p.iter().all(u8::is_ascii_digit)) { "authority" }
+            else { "none" };
+        let form_ok = match form { "asterisk" => m == b"OPTIONS", "authority" => m == b"CONNECT", "origin" | "absolute" => m != b"CONNECT", _ => false };
+        if !form_ok { return Err(format!("request-target {:?} ({form}-form) is not allowed with method {:?}", String::from_utf8_lossy(t), String::from_utf8_lossy(m))); }
         // header section
         let mut headers = Vec::new();
         loop {
@@ -239,6 +263,8 @@ struct ConnLog {
     closed: bool,
     /// the backend itself answered 400 + closed (strict reader error)
     backend_rejected: Option<String>,
+    /// the backend answered a HEAD request as soon as its head was complete, before the body sozu announced had arrived
+    early_head_answers: usize,
     /// h2c only: decoded requests
     h2reqs: Vec<Value>,
     h2errors: Vec<String>,
@@ -283,7 +309,7 @@ fn spawn_backend(kind: &'static str, tag: String, epoch: Arc<AtomicU64>, stop: A
             let Ok(s) = s else { continue };
             let idx = {
                 let mut l = logs2.lock().unwrap();
-                l.push(ConnLog { epoch: epoch.load(Ordering::SeqCst), bytes: Vec::new(), closed: false, backend_rejected: None, h2reqs: Vec::new(), h2errors: Vec::new() });
+                l.push(ConnLog { epoch: epoch.load(Ordering::SeqCst), bytes: Vec::new(), closed: false, backend_rejected: None, early_head_answers: 0, h2reqs: Vec::new(), h2errors: Vec::new() });
                 l.len() - 1
             };
             let logs3 = logs2.clone();
@@ -317,6 +343,8 @@ fn serve_h1(mut s: TcpStream, idx: usize, logs: Arc<Mutex<Vec<ConnLog>>>, tag: S
     s.set_read_timeout(Some(Duration::from_secs(20))).ok();
     s.set_nodelay(true).ok();
     let mut answered = 0usize;
+    // index of the request that was already answered from its head (HEAD with an announced body still on its way)
+    let mut early_for: Option<usize> = None;
     let mut buf = [0u8; 16384];
     loop {
         match s.read(&mut buf) {
@@ -325,10 +353,36 @@ fn serve_h1(mut s: TcpStream, idx: usize, logs: Arc<Mutex<Vec<ConnLog>>>, tag: S
                 let all = { let mut l = logs.lock().unwrap(); l[idx].bytes.extend_from_slice(&buf[..n]); l[idx].bytes.clone() };
                 let (reqs, tail) = strict::read_all(&all);
                 while answered < reqs.len() {
+                    if early_for == Some(answered) { early_for = None; answered += 1; continue; }
                     let body = format!("{tag}:{}", reqs[answered].target);
-                    let resp = format!("HTTP/1.1 200 OK\r\nContent-Length: {}\r\nX-Backend: {tag}\r\n\r\n{body}", body.len());
+                    // The RESPONSE side must stay in step whatever the request method is (C03 is about the request side):
+                    //  * HEAD (exactly that token: methods are case-sensitive, RFC 9110 9.1) is answered from the head - the
+                    //    Content-Length of the GET representation, no content (RFC 9110 9.3.2);
+                    //  * CONNECT is refused (405, normally framed): this origin server is no tunnel end point, the connection
+                    //    stays an HTTP connection and the next request on it is read as a request;
+                    //  * anything else, known or not: 200 with a Content-Length body.
+                    let resp = match reqs[answered].method.as_str() {
+                        "HEAD" => format!("HTTP/1.1 200 OK\r\nContent-Length: {}\r\nX-Backend: {tag}\r\nX-No-Content: 1\r\n\r\n", body.len()),
+                        "CONNECT" => format!("HTTP/1.1 405 Method Not Allowed\r\nContent-Length: {}\r\nAllow: GET, HEAD, POST, OPTIONS\r\nX-Backend: {tag}\r\n\r\n{body}", body.len()),
+                        _ => format!("HTTP/1.1 200 OK\r\nContent-Length: {}\r\nX-Backend: {tag}\r\n\r\n{body}", body.len()),
+                    };
                     if s.write_all(resp.as_bytes()).is_err() { logs.lock().unwrap()[idx].closed = true; return; }
                     answered += 1;
+                }
+                // A HEAD request is answered from its head, as origin servers do: the answer does not depend on the content
+                // the request announces. The connection stays in use: the announced content is still read (it belongs to
+                // this request), and whatever follows it is the next request. If sozu believes the message ended earlier
+                // (or later) than its framing says, the next request it writes on this connection is misread here.
+                if tail == strict::Tail::Partial("body") && early_for.is_none() {
+                    let pos = strict::consumed(&all);
+                    if strict::pending_method(&all, pos).as_deref() == Some("HEAD") {
+                        let target = String::from_utf8_lossy(all[pos..].split(|&b| b == b' ').nth(1).unwrap_or(b"")).to_string();
+                        let body = format!("{tag}:{target}");
+                        let resp = format!("HTTP/1.1 200 OK\r\nContent-Length: {}\r\nX-Backend: {tag}\r\nX-No-Content: 1\r\n\r\n", body.len());
+                        if s.write_all(resp.as_bytes()).is_err() { logs.lock().unwrap()[idx].closed = true; return; }
+                        early_for = Some(reqs.len());
+                        logs.lock().unwrap()[idx].early_head_answers += 1;
+                    }
                 }
                 if let strict::Tail::Error(e) = tail {
                     // what a strict origin server does: 400 and close
@@ -425,11 +479,24 @@ fn serve_h2c(s: TcpStream, idx: usize, logs: Arc<Mutex<Vec<ConnLog>>>, tag: Stri
             let st = streams.remove(&sid).unwrap();
             let v = h2_req_json(sid, st.headers, st.data, st.trailers, true);
             let path = v["path"].as_str().unwrap_or("").to_string();
+            let method = v["method"].as_str().unwrap_or("").to_string();
             logs.lock().unwrap()[idx].h2reqs.push(v);
             let body = format!("{tag}:{path}");
-            let blk = c.hp.encode(&[(b":status", b"200"), (b"content-length", body.len().to_string().as_bytes()), (b"x-backend", tag.as_bytes())]);
-            c.send(&Frame::headers(sid, blk, true, false));
-            c.send(&Frame::data(sid, body.into_bytes(), true));
+            // HEAD is answered without DATA, CONNECT is refused (405): see serve_h1
+            let status: &[u8] = if method == "CONNECT" { b"405" } else { b"200" };
+            if method == "HEAD" {
+                // (no content-length on the answer to HEAD unless C03_H2C_HEAD_CL is set: sozu refuses a HEADERS frame that
+                //  carries END_STREAM and a non-zero content-length unless the status is 1xx/204/304 - pkawa's body_exempt
+                //  does not know HEAD - and answers 502. A response-side matter, reported to the coordinator; not C03's subject.)
+                let blk = if std::env::var("C03_H2C_HEAD_CL").is_ok() {
+                    c.hp.encode(&[(b":status", status), (b"content-length", body.len().to_string().as_bytes()), (b"x-backend", tag.as_bytes())])
+                } else { c.hp.encode(&[(b":status", status), (b"x-backend", tag.as_bytes())]) };
+                c.send(&Frame::headers(sid, blk, true, true));
+            } else {
+                let blk = c.hp.encode(&[(b":status", status), (b"content-length", body.len().to_string().as_bytes()), (b"x-backend", tag.as_bytes())]);
+                c.send(&Frame::headers(sid, blk, true, false));
+                c.send(&Frame::data(sid, body.into_bytes(), true));
+            }
         }
     }
 }
@@ -462,7 +529,15 @@ fn h2_req_json(sid: u32, headers: Vec<(Vec<u8>, Vec<u8>)>, data: usize, trailers
         if v.iter().any(|&b| b == 0 || b == b'\r' || b == b'\n') { errs.push(format!("forbidden byte in value of {ks}")); }
         if v.first().is_some_and(|&b| b == b' ' || b == b'\t') || v.last().is_some_and(|&b| b == b' ' || b == b'\t') { errs.push(format!("leading/trailing whitespace in value of {ks}")); }
     }
-    for p in [":method", ":scheme", ":path"] { if !pseudo.contains_key(p) { errs.push(format!("missing {p}")); } }
+    if pseudo.get(":method").map(|m| m.as_str()) == Some("CONNECT") {
+        // RFC 9113 8.5: :scheme and :path MUST be omitted, :authority names the tunnel destination
+        for p in [":scheme", ":path"] { if pseudo.contains_key(p) { errs.push(format!("CONNECT request with {p} (malformed, RFC 9113 8.5)")); } }
+        if !pseudo.contains_key(":authority") { errs.push("CONNECT request without :authority".into()); }
+    } else {
+        for p in [":method", ":scheme", ":path"] { if !pseudo.contains_key(p) { errs.push(format!("missing {p}")); } }
+        if pseudo.get(":path").is_some_and(|p| p == "*") && pseudo.get(":method").map(|m| m.as_str()) != Some("OPTIONS") { errs.push(":path * with a method other than OPTIONS".into()); }
+    }
+    if pseudo.get(":method").is_some_and(|m| m.is_empty() || !m.bytes().all(strict::is_tchar)) { errs.push("method is not a token".into()); }
     if let (Some(h), Some(a)) = (&host, pseudo.get(":authority")) { if !h.eq_ignore_ascii_case(a) { errs.push("host differs from :authority".into()); } }
     if cl.len() > 1 { errs.push("more than one content-length".into()); }
     let mut framing = "h2";
@@ -531,12 +606,16 @@ fn split_responses(buf: &[u8]) -> (Vec<(u16, String, usize)>, usize) {
         let code: u16 = sl.split(' ').nth(1).and_then(|c| c.parse().ok()).unwrap_or(0);
         let mut cl = 0usize;
         let mut by = String::new();
+        let mut no_content = false;
         for l in lines {
             let ll = l.to_ascii_lowercase();
             if let Some(v) = ll.strip_prefix("content-length:") { cl = v.trim().parse().unwrap_or(0); }
             if let Some(v) = ll.strip_prefix("x-backend:") { by = v.trim().to_string(); }
             if ll.starts_with("x-backend-reject:") { by = "backend-reject".into(); }
+            // the recording backend marks its answers to HEAD (Content-Length of the representation, no content)
+            if ll.starts_with("x-no-content:") { no_content = true; }
         }
+        if no_content { cl = 0; }
         if rest.len() < he + 4 + cl { return (out, pos); }
         out.push((code, by, he + 4 + cl));
         pos += he + 4 + cl;
@@ -614,7 +693,10 @@ struct H2Probe {
     gap_ms: u64,
 }
 
-fn h2_client(addr: SocketAddr, probe: &H2Probe, sentinel_headers: &[(Vec<u8>, Vec<u8>)], sentinel_first: bool, wait: Duration) -> ClientObs {
+/// `late`: a further request (stream 5) sent once the probe's stream and the sentinel's were both answered by a backend:
+/// by then the backend connection that carried the probe is back in sozu's pool, so the late request is written on a
+/// connection whose peer may still be waiting for (or have been sent more than) the content the probe announced.
+fn h2_client(addr: SocketAddr, probe: &H2Probe, sentinel_headers: &[(Vec<u8>, Vec<u8>)], late: Option<&[(Vec<u8>, Vec<u8>)]>, sentinel_first: bool, wait: Duration) -> ClientObs {
     let mut obs = ClientObs::default();
     let mut c = match h2::h2_tls_client(addr, "localhost", Duration::from_secs(3)) {
         Ok(c) => c,
@@ -650,11 +732,12 @@ fn h2_client(addr: SocketAddr, probe: &H2Probe, sentinel_headers: &[(Vec<u8>, Ve
     let mut out: BTreeMap<u32, String> = BTreeMap::new();
     let mut by: BTreeMap<u32, String> = BTreeMap::new();
     let mut goaway: Option<u32> = None;
-    let deadline = Instant::now() + wait;
+    let mut deadline = Instant::now() + wait;
     let mut log = String::new();
+    let mut late_sent = false;
     loop {
         let now = Instant::now();
-        if now >= deadline { obs.timed_out = true; break; }
+        if now >= deadline { if !late_sent { obs.timed_out = true; } break; }
         let Some(f) = c.read_frame(deadline - now) else {
             if c.eof { obs.closed = true; break; }
             continue;
@@ -679,12 +762,25 @@ fn h2_client(addr: SocketAddr, probe: &H2Probe, sentinel_headers: &[(Vec<u8>, Ve
             }
             h2::RST_STREAM => { let code = f.u32_at(0).unwrap_or(999); log.push_str(&format!("[RST sid={} code={}]", f.sid, code)); out.insert(f.sid, format!("rst:{code}")); }
             h2::GOAWAY => { let code = f.u32_at(4).unwrap_or(999); let last = f.u32_at(0).unwrap_or(0) & 0x7fff_ffff; log.push_str(&format!("[GOAWAY last={last} code={code}]")); goaway = Some(code);
-                for sid in [1u32, 3u32] { if sid > last { out.entry(sid).or_insert(format!("goaway:{code}")); } } }
+                for sid in [1u32, 3u32, 5u32] { if sid > last && (sid < 5 || late_sent) { out.entry(sid).or_insert(format!("goaway:{code}")); } } }
             h2::WINDOW_UPDATE | h2::PING => {}
             t => log.push_str(&format!("[frame ty={t} sid={}]", f.sid)),
         }
         // a stream whose headers arrived without END_STREAM completes on DATA+ES (handled above)
-        if out.get(&1).is_some_and(|s| !s.starts_with('~')) && out.get(&3).is_some_and(|s| !s.starts_with('~')) { break; }
+        if out.get(&1).is_some_and(|s| !s.starts_with('~')) && out.get(&3).is_some_and(|s| !s.starts_with('~')) {
+            if late_sent { if out.get(&5).is_some_and(|s| !s.starts_with('~')) { break; } else { continue; } }
+            // both answered by a backend (not reset / refused by sozu), connection alive: the late request
+            let served = |sid: u32| by.get(&sid).is_some_and(|b| !b.is_empty());
+            match late {
+                Some(h) if goaway.is_none() && served(psid) && served(ssid) => {
+                    let block = c.hp.encode_owned(h);
+                    c.send(&Frame::headers(5, block, true, true));
+                    late_sent = true;
+                    deadline = Instant::now() + wait.min(Duration::from_millis(1500));
+                }
+                _ => break,
+            }
+        }
     }
     let fin = |sid: u32| -> String {
         match out.get(&sid) {
@@ -694,6 +790,7 @@ fn h2_client(addr: SocketAddr, probe: &H2Probe, sentinel_headers: &[(Vec<u8>, Ve
     };
     obs.statuses = vec![fin(psid), fin(ssid)];
     obs.answered_by = vec![by.get(&psid).cloned().unwrap_or_default(), by.get(&ssid).cloned().unwrap_or_default()];
+    if late_sent { obs.statuses.push(fin(5)); obs.answered_by.push(by.get(&5).cloned().unwrap_or_default()); }
     obs.raw = log;
     obs
 }
@@ -726,6 +823,8 @@ struct BackObs {
     anomalies: Vec<(String, usize, String, String)>,
     raw: Vec<(String, usize, String, bool)>,
     open_conns: usize,
+    /// HEAD requests a backend answered from the head, before the content they announced was there
+    early_heads: usize,
 }
 
 fn collect_backend(lane: &Lane, epoch: u64, kind: &str, settle: Duration) -> BackObs {
@@ -746,6 +845,7 @@ fn collect_backend(lane: &Lane, epoch: u64, kind: &str, settle: Duration) -> Bac
         for (ci, c) in logs.iter().enumerate() {
             if c.epoch != epoch { continue; }
             if !c.closed { obs.open_conns += 1; }
+            obs.early_heads += c.early_head_answers;
             obs.raw.push((cl.to_string(), ci, lossy(&c.bytes[..c.bytes.len().min(1500)]), c.closed));
             if kind == "h2c" {
                 for e in &c.h2errors { obs.anomalies.push((cl.into(), ci, "h2-error".into(), e.clone())); }
@@ -780,7 +880,7 @@ fn back_json(b: &BackObs) -> Value {
     json!({
         "requests": b.reqs.iter().map(|r| json!({"cluster": r.cluster, "conn": r.conn, "method": r.method, "target": r.target, "host": r.host, "framing": r.framing,
             "body_len": r.body_len, "body": lossy(&r.body[..r.body.len().min(80)]), "sozu_ids": r.sozu_ids, "names": r.names, "trailers": r.trailers, "complete": r.complete, "errors": r.errors, "chunks": r.chunks})).collect::<Vec<_>>(),
-        "anomalies": b.anomalies, "raw": b.raw, "open_conns": b.open_conns })
+        "anomalies": b.anomalies, "raw": b.raw, "open_conns": b.open_conns, "early_head_answers": b.early_heads })
 }
 
 // =====================================================================================
@@ -828,6 +928,11 @@ fn sentinel_h2(lane: &Lane) -> Vec<(Vec<u8>, Vec<u8>)> {
          (b":path".to_vec(), b"/sentinel".to_vec()), (b"x-sentinel".to_vec(), b"1".to_vec())]
 }
 
+fn late_h2(lane: &Lane) -> Vec<(Vec<u8>, Vec<u8>)> {
+    vec![(b":method".to_vec(), b"GET".to_vec()), (b":scheme".to_vec(), b"https".to_vec()), (b":authority".to_vec(), lane.host_a.clone().into_bytes()),
+         (b":path".to_vec(), b"/late".to_vec()), (b"x-sentinel".to_vec(), b"2".to_vec())]
+}
+
 // =====================================================================================
 // explore mode
 // =====================================================================================
@@ -848,7 +953,8 @@ fn explore(env: &Env, lane: &Lane, line: &Value) -> Value {
         if !line["trailers"].is_null() { p.trailers = Some((pairs(&line["trailers"]), line["trailers_es"].as_bool().unwrap_or(true))); }
         p.split_continuation = line["cont"].as_bool().unwrap_or(false);
         p.gap_ms = line["gap_ms"].as_u64().unwrap_or(0);
-        h2_client(env.front_h2, &p, &sentinel_h2(lane), line["sentinel_first"].as_bool().unwrap_or(false), wait)
+        let late = late_h2(lane);
+        h2_client(env.front_h2, &p, &sentinel_h2(lane), if line["late"].as_bool().unwrap_or(true) { Some(&late) } else { None }, line["sentinel_first"].as_bool().unwrap_or(false), wait)
     } else {
         let raw = bytes_of(&subst(line["raw"].as_str().unwrap()));
         let pipelined = line["pipelined"].as_bool().unwrap_or(true);
@@ -888,6 +994,11 @@ struct Concrete {
     cuts: Vec<usize>,
     /// concrete request-target the probe carries (what a backend must read if it is forwarded)
     target: String,
+    /// the spec's name of that target ("/p", "*", "a:80", "http://b/p", "/p q")
+    spec_target: String,
+    /// concrete method token sent, and the spec's name of it (GET HEAD POST CONNECT OPTIONS PURGE get)
+    method: String,
+    spec_method: String,
     /// the body bytes a backend must read if the probe is forwarded
     body: Vec<u8>,
     /// field names the client sent as field names (lower-case) - anything else read by a backend that
@@ -897,6 +1008,18 @@ struct Concrete {
     /// routing / identity fields, pkawa::handle_trailer)
     trailers: Vec<String>,
     desc: String,
+}
+
+/// Spelling of a method token of the spec. PURGE stands for "any other method" (extension tokens with every kind of tchar,
+/// and the standard methods sozu's `Method` enum knows but no framing rule mentions); `get` for a spelling that differs
+/// from a standard method in case only (never of HEAD / CONNECT / OPTIONS: kawa and `Method::new` compare those without
+/// case, which changes what sozu does with the RESPONSE or the request-target - see design_notes/C03.md, limits).
+fn method_spelling(rng: &mut Rng, m: &str) -> String {
+    match m {
+        "PURGE" => rng.pick(&["PURGE", "PROPFIND", "M-SEARCH", "X_Y.Z~1", "DELETE", "PUT", "TRACE", "PATCH", "G", "GETT", "HEADER", "CONNECTX", "!#$%&'*+-.^_`|~"]).to_string(),
+        "get" => rng.pick(&["get", "Get", "gET", "post", "Post", "put", "delete"]).to_string(),
+        other => other.to_string(),
+    }
 }
 
 fn strs(v: &Value) -> Vec<String> { v.as_array().map(|a| a.iter().map(|x| x.as_str().unwrap_or("").to_string()).collect()).unwrap_or_default() }
@@ -933,13 +1056,17 @@ fn concretise_h1(c: &Value, code: &Value, lane: &Lane, rng: &mut Rng, allow_pipe
     let mut desc = String::new();
     let path = rng.pick(&["/p", "/p", "/p?x=1", "/p/q.html"]).to_string();
     let rl = c["rl"].as_str().unwrap();
+    let spec_method = c["m"].as_str().unwrap_or("POST").to_string();
+    let method = method_spelling(rng, &spec_method);
     let mut target = path.clone();
+    let mut spec_target = "/p".to_string();
     let line = match rl {
-        "ok" => format!("POST {path} HTTP/1.1"),
-        "http10" => format!("POST {path} HTTP/1.0"),
-        "abs:b" => { target = format!("http://{}{}", lane.host_b, path); format!("POST {target} HTTP/1.1") }
-        "star" => { target = "*".into(); "GET * HTTP/1.1".to_string() }
-        "optstar" => { target = "*".into(); "OPTIONS * HTTP/1.1".to_string() }
+        "ok" => format!("{method} {path} HTTP/1.1"),
+        "http10" => format!("{method} {path} HTTP/1.0"),
+        "abs:b" => { target = format!("http://{}{}", lane.host_b, path); spec_target = "http://b/p".into(); format!("{method} {target} HTTP/1.1") }
+        "star" => { target = "*".into(); spec_target = "*".into(); format!("{method} * HTTP/1.1") }
+        // authority-form: host:port of cluster A
+        "auth" => { target = format!("{}:{}", lane.host_a, rng.pick(&["80", "443", "8080"])); spec_target = "a:80".into(); format!("{method} {target} HTTP/1.1") }
         "badmethod" => match rng.below(4) { 0 => format!("PO(ST {path} HTTP/1.1"), 1 => format!("P\u{0}ST {path} HTTP/1.1"), 2 => format!("P\u{e9}ST {path} HTTP/1.1"), _ => format!("PO@ST {path} HTTP/1.1") },
         "http09" => match rng.below(4) { 0 => format!("GET {path}"), 1 => format!("POST {path} HTTP/0.9"), 2 => format!("POST {path} HTTP/2.0"), _ => format!("POST {path} http/1.1") },
         "twosp" => match rng.below(5) { 0 => format!("POST  {path} HTTP/1.1"), 1 => format!("POST {path}  HTTP/1.1"), 2 => format!("POST {path} HTTP/1.1 "), 3 => format!(" POST {path} HTTP/1.1"), _ => format!("POST\t{path} HTTP/1.1") },
@@ -1040,7 +1167,8 @@ fn concretise_h1(c: &Value, code: &Value, lane: &Lane, rng: &mut Rng, allow_pipe
     }
     cuts.sort(); cuts.dedup(); cuts.retain(|&x| x > 0 && x < bytes.len());
     desc.push_str(&format!("pipelined={pipelined} sentinel_first={sentinel_first} cuts={cuts:?}"));
-    Concrete { h1_bytes: bytes, h2: H2Probe::default(), pipelined, sentinel_first, cuts, target, body, names, trailers, desc }
+    desc.push_str(&format!(" method={method}"));
+    Concrete { h1_bytes: bytes, h2: H2Probe::default(), pipelined, sentinel_first, cuts, target, spec_target, method, spec_method, body, names, trailers, desc }
 }
 
 fn concretise_h2(c: &Value, lane: &Lane, rng: &mut Rng) -> Concrete {
@@ -1048,16 +1176,19 @@ fn concretise_h2(c: &Value, lane: &Lane, rng: &mut Rng) -> Concrete {
     let path = rng.pick(&["/p", "/p", "/p?x=1", "/p/q.html"]).to_string();
     let ps = c["ps"].as_str().unwrap();
     let mut target = path.clone();
-    let method = match ps { "path:optstar" => "OPTIONS", "method:bad" => ["G T", "GE\tT", "G(T", "GET /x HTTP/1.1\r\nX:"][rng.below(4)], _ => "POST" };
+    let spec_method = c["m"].as_str().unwrap_or("POST").to_string();
+    let method_sent = method_spelling(rng, &spec_method);
+    let method: &str = match ps { "method:bad" => ["G T", "GE\tT", "G(T", "GET /x HTTP/1.1\r\nX:"][rng.below(4)], _ => method_sent.as_str() };
     let scheme = if ps == "scheme:bad" { rng.pick(&["ftp", "HTTPS", "https:", ""]) } else { rng.pick(&["https", "http"]) };
     let auth = if ps == "auth:b" { lane.host_b.clone() } else { lane.host_a.clone() };
     let pv: String = match ps {
         "path:empty" => "".into(), "path:noslash" => rng.pick(&["p", "p/q", "http://evil/p", "../p"]).to_string(),
-        "path:star" | "path:optstar" => "*".into(),
+        "path:star" => "*".into(),
         "path:space" => format!("{path} {}", rng.pick(&["q", "HTTP/1.1", "HTTP/1.0\r".trim_end_matches('\r')])),
         "path:frag" => format!("{path}#f"), _ => path.clone(),
     };
-    if matches!(ps, "path:star" | "path:optstar" | "path:space" | "path:noslash" | "path:frag" | "path:empty") { target = pv.clone(); }
+    if matches!(ps, "path:star" | "path:space" | "path:noslash" | "path:frag" | "path:empty") { target = pv.clone(); }
+    let spec_target = if ps == "path:star" { "*" } else if ps == "path:space" { "/p q" } else { "/p" }.to_string();
     let m = (b(":method"), bytes_of(method));
     let s = (b(":scheme"), b(scheme));
     let a = (b(":authority"), b(&auth));
@@ -1094,6 +1225,8 @@ fn concretise_h2(c: &Value, lane: &Lane, rng: &mut Rng) -> Concrete {
     }
     let mut headers: Vec<(Vec<u8>, Vec<u8>)> = match ps {
         "noauth" => vec![m, s, p.clone()], "nomethod" => vec![s, a, p.clone()], "nopath" => vec![m, s, a], "noscheme" => vec![m, a, p.clone()],
+        // the form RFC 9113 8.5 prescribes for CONNECT: neither :scheme nor :path
+        "nosp" => if rng.chance(50) { vec![m, a] } else { vec![a, m] },
         "dup:path" => vec![m, s, a, p.clone(), (b(":path"), b("/q"))],
         "dup:method" => vec![m, s, a, p.clone(), (b(":method"), b("GET"))],
         "after" => vec![m, s, a, (b("x-plain"), b("v"))],
@@ -1136,9 +1269,9 @@ fn concretise_h2(c: &Value, lane: &Lane, rng: &mut Rng) -> Concrete {
     pr.pad_data = rng.chance(30);
     pr.gap_ms = if rng.chance(50) { 0 } else { 25 };
     let sentinel_first = rng.chance(30);
-    let desc = format!("cont={} pad={} gap={}ms sentinel_first={sentinel_first}", pr.split_continuation, pr.pad_data, pr.gap_ms);
+    let desc = format!("cont={} pad={} gap={}ms sentinel_first={sentinel_first} method={method_sent}", pr.split_continuation, pr.pad_data, pr.gap_ms);
     let trailers = if matches!(tr, "plain" | "ident") { vec!["x-t".to_string()] } else if tr == "framing" { vec!["x-t".to_string(), "content-length".into(), "host".into()] } else { vec![] };
-    Concrete { h1_bytes: vec![], h2: pr, pipelined: true, sentinel_first, cuts: vec![], target, body, names, trailers, desc }
+    Concrete { h1_bytes: vec![], h2: pr, pipelined: true, sentinel_first, cuts: vec![], target, spec_target, method: method_sent, spec_method, body, names, trailers, desc }
 }
 
 // =====================================================================================
@@ -1153,13 +1286,18 @@ fn host_of(lane: &Lane, h: &str) -> String {
 
 /// abstract an observed request to the spec's record (as json)
 fn abstract_req(lane: &Lane, r: &SeenReq, conc: &Concrete, h2c: bool) -> Value {
-    let target = if r.target == "/sentinel" { "/sentinel".to_string() }
+    let sentinel = r.target == "/sentinel";
+    let target = if sentinel { "/sentinel".to_string() }
+        // an HTTP/2 CONNECT has no :path: its target is the :authority (RFC 9113 8.5)
+        else if h2c && r.method == "CONNECT" && r.target.is_empty() && r.host == conc.target { conc.spec_target.clone() }
         else if r.target == conc.target || (h2c && conc.target.ends_with(&r.target) && conc.target.starts_with("http://")) {
             // map back to the spec's target name
-            if conc.target.starts_with("http://") { "http://b/p".into() } else if conc.target == "*" { "*".into() } else if conc.target.contains(' ') { "/p q".into() } else { "/p".into() }
+            conc.spec_target.clone()
         } else { format!("?{}", r.target) };
+    // the method token must reach the backend exactly as the client spelled it (case-sensitive)
+    let method = if sentinel { r.method.clone() } else if r.method == conc.method { conc.spec_method.clone() } else { format!("?{}", r.method) };
     let framing = if h2c { "h2".to_string() } else { r.framing.clone() };
-    json!({"method": r.method, "target": target, "host": host_of(lane, &r.host), "framing": framing, "len": r.body_len})
+    json!({"method": method, "target": target, "host": host_of(lane, &r.host), "framing": framing, "len": r.body_len})
 }
 
 fn strip_framing(v: &Value) -> Value { let mut v = v.clone(); v["framing"] = json!("h2"); v }
@@ -1191,12 +1329,28 @@ fn judge(lane: &Lane, case: &Value, conc: &Concrete, cobs: &ClientObs, bobs: &Ba
     let class: String = if class == "fwd" && !classes.iter().any(|c| c == "fwd") && code["complete"].as_bool().unwrap_or(false) {
         "answered-then-reset".into()
     } else { class };
+    // A HEAD request is answered by the backend from its head (bobs.early_heads), before the content it announces is there.
+    // If that content then turns out malformed (too little / too much DATA, a bad chunk, bad trailers) sozu rejects a
+    // request whose answer the client may already hold: the spec admits the prefix on the backend connection
+    // (adm.partial); what must hold is judged as for a rejection - nothing complete of the probe at a backend - and the
+    // late request shows whether the connection that carries the prefix was given up or re-used.
+    let class: String = if class == "fwd" && !classes.iter().any(|c| c == "fwd") && bobs.early_heads > 0 && adm["partial"].as_bool().unwrap_or(false) {
+        "answered-from-head".into()
+    } else { class };
     // ---- what the backends read
-    let probe_reqs: Vec<&SeenReq> = bobs.reqs.iter().filter(|r| r.target != "/sentinel").collect();
-    let complete: Vec<&SeenReq> = bobs.reqs.iter().filter(|r| r.complete).collect();
+    let probe_reqs: Vec<&SeenReq> = bobs.reqs.iter().filter(|r| r.target != "/sentinel" && r.target != "/late").collect();
+    // (the late request of an H2 probe - sent after both answers, to be written on the backend connection the probe used -
+    //  is not in the spec's understood-list: it is checked on its own right below and then set aside)
+    let complete: Vec<&SeenReq> = bobs.reqs.iter().filter(|r| r.complete && r.target != "/late").collect();
     let observed_list: Vec<Value> = complete.iter().map(|r| abstract_req(lane, r, conc, h2c)).collect();
     let ctx = |extra: Value| -> Value { json!({"observed_class": class, "client": {"statuses": cobs.statuses, "by": cobs.answered_by, "closed": cobs.closed, "timed_out": cobs.timed_out},
         "backend_read": observed_list, "anomalies": bobs.anomalies, "extra": extra}) };
+    for r in bobs.reqs.iter().filter(|r| r.target == "/late") {
+        let as_sent = r.method == "GET" && r.complete && r.body_len == 0 && r.cluster == "A" && (h2c || r.framing == "cl");
+        if !as_sent || bobs.reqs.iter().filter(|x| x.target == "/late").count() > 1 {
+            out.push(Verdict { class: "late-request-differs".into(), detail: ctx(json!({"read": format!("{} {} host={} {} {} complete={}", r.method, r.target, r.host, r.framing, r.body_len, r.complete)})) });
+        }
+    }
     // (1) never: bytes a strict reader cannot read, a request sozu did not understand as one, a smuggled field line
     for (cl, ci, kind, d) in &bobs.anomalies {
         if kind == "unreadable" || kind == "h2-error" {
@@ -1214,7 +1368,7 @@ fn judge(lane: &Lane, case: &Value, conc: &Concrete, cobs: &ClientObs, bobs: &Ba
             }
         }
         // every field line a backend reads was sent as a field line by the client, or is one of sozu's own
-        if r.target != "/sentinel" {
+        if r.target != "/sentinel" && r.target != "/late" {
             const SOZU: &[&str] = &["host", "x-forwarded-for", "forwarded", "x-forwarded-port", "x-forwarded-proto", "x-request-id", "sozu-id",
                 "content-length", "transfer-encoding", "connection", "x-plain", "x-real-ip"];
             for n in &r.names {
@@ -1231,7 +1385,7 @@ fn judge(lane: &Lane, case: &Value, conc: &Concrete, cobs: &ClientObs, bobs: &Ba
         }
     }
     // (2) the class must be admissible
-    if !classes.contains(&class) && class != "answered-then-reset" {
+    if !classes.contains(&class) && class != "answered-then-reset" && class != "answered-from-head" {
         out.push(Verdict { class: format!("class-not-admissible:{class}"), detail: ctx(json!({"admissible": classes})) });
     }
     // (3) per class
@@ -1246,11 +1400,19 @@ fn judge(lane: &Lane, case: &Value, conc: &Concrete, cobs: &ClientObs, bobs: &Ba
         }
         let mut obs_sorted: Vec<String> = observed_list.iter().map(|v| v.to_string()).collect();
         obs_sorted.sort();
-        let ok = lists.iter().any(|l| { let mut e: Vec<String> = l.iter().map(|v| v.to_string()).collect(); e.sort(); e == obs_sorted });
+        // A HEAD request answered from its head: once the client holds the complete answer sozu may stop relaying what is
+        // left of the request's content (RFC 9112 9.5 / RFC 9113 8.1: a complete response may precede the end of the
+        // request). The backend then holds a prefix of the probe - admissible iff nothing follows it on that connection
+        // (it ends in the incomplete message) and sozu closed it; what the backends read completely is then a sub-list of
+        // an admissible list (the probe missing; the sentinel too if sozu gave the frontend connection up with it).
+        let conn_closed = |cl: &str, ci: usize| bobs.raw.iter().any(|r| r.0 == cl && r.1 == ci && r.3);
+        let cut_after_early_answer = bobs.early_heads > 0 && !partials.is_empty() && partials.iter().all(|p| conn_closed(&p.0, p.1));
+        let sub_list = |obs: &[String], adm: &[String]| { let mut rest: Vec<&String> = adm.iter().collect(); obs.iter().all(|o| rest.iter().position(|a| *a == o).map(|i| { rest.remove(i); }).is_some()) };
+        let ok = lists.iter().any(|l| { let mut e: Vec<String> = l.iter().map(|v| v.to_string()).collect(); e.sort(); e == obs_sorted || (cut_after_early_answer && sub_list(&obs_sorted, &e)) });
         if !ok {
             out.push(Verdict { class: "forward-differs".into(), detail: ctx(json!({"admissible_lists": lists})) });
         }
-        if !partials.is_empty() { out.push(Verdict { class: "forward-incomplete".into(), detail: ctx(json!({"partials": partials})) }); }
+        if !partials.is_empty() && !cut_after_early_answer { out.push(Verdict { class: "forward-incomplete".into(), detail: ctx(json!({"partials": partials})) }); }
         for r in &probe_reqs {
             for t in &r.trailers {
                 if !conc.trailers.contains(t) {
@@ -1320,7 +1482,8 @@ fn run_case(env: &Env, lane: &Lane, case: &Value, seed: u64, idx: u64, variant: 
         (conc, cobs, sent)
     } else {
         let conc = concretise_h2(c, lane, &mut rng);
-        let cobs = h2_client(env.front_h2, &conc.h2, &sentinel_h2(lane), conc.sentinel_first, wait);
+        let late = late_h2(lane);
+        let cobs = h2_client(env.front_h2, &conc.h2, &sentinel_h2(lane), Some(&late), conc.sentinel_first, wait);
         let sent = format!("headers={:?} data={:?} trailers={:?} es_on_headers={}",
             conc.h2.headers.iter().map(|(k, v)| format!("{}: {}", lossy(k), lossy(v))).collect::<Vec<_>>(),
             conc.h2.data.iter().map(|(d, es)| format!("{}{}", lossy(d), if *es { "/ES" } else { "" })).collect::<Vec<_>>(),
@@ -1404,7 +1567,7 @@ fn replay(seed: u64, nlanes: usize, backend_kind: &'static str, variants: u64, d
                     *classes.lock().unwrap().entry(format!("{}:{}", case["c"]["front"].as_str().unwrap(), o.class)).or_insert(0) += 1;
                     // non-trivial = differs from the plain valid skeleton in at least one token
                     let c = &case["c"];
-                    let trivial = c["hdrs"].as_array().map(|a| a.is_empty()).unwrap_or(true)
+                    let trivial = c["hdrs"].as_array().map(|a| a.is_empty()).unwrap_or(true) && c["m"] == "POST"
                         && (c["front"] == "h1" && c["rl"] == "ok" && c["host"] == "a" || c["front"] == "h2" && c["ps"] == "ok" && c["data"] == "es" && c["tr"] == "none");
                     if !trivial { distinct.lock().unwrap().insert(format!("{}|{}", case["c"], o.class)); }
                     if force.is_some() {
